@@ -104,6 +104,7 @@ def materialize(ex, v):
     p = ex.float_pending.pop(v.get_id(), None)
     if p is None: return
     _, neg, ip, fp = p
+    if len(ip) + len(fp) > 18: raise Unsupported('float arithmetic on a decimal with more than 18 digits')
     N = digits_value_bv(ip + fp)
     x = z3.fpSignedToFP(RNE, N, F64)
     if fp: x = z3.fpDiv(RNE, x, z3.FPVal(float(10 ** len(fp)), F64))
@@ -171,8 +172,21 @@ def parse_f64_bytes(ex, items):
     if has_exp and nd <= 15 and len(ex_d) <= 2 and any(is_sym(d) for d in ex_d):
         # the exponent decides the magnitude: fork over its digit values (at most 100 ways)
         ex_d = [d if not is_sym(d) else 48 + ex.choose([d == 48 + k for k in range(10)]) for d in ex_d]
+    if all(not is_sym(d) for d in list(ip) + list(fp) + list(ex_d)):
+        t_ = ('-' if neg else '') + bytes(ip).decode() + ('.' + bytes(fp).decode() if fp else '') + (('e' + ('-' if ex_neg else '') + bytes(ex_d).decode()) if has_exp else '')
+        return float(t_ if (ip or not fp) else ('-' if neg else '') + '0.' + bytes(fp).decode() + (('e' + ('-' if ex_neg else '') + bytes(ex_d).decode()) if has_exp else ''))
     if has_exp and nd <= 15 and all(not is_sym(d) for d in ex_d) and len(ex_d) <= 3:
         e = int(bytes(ex_d)) * (-1 if ex_neg else 1) - len(fp)
+        # a power of ten only moves the decimal point: the same decimal, interned with its plain digits
+        digs = list(ip) + list(fp)
+        # (<= 15 significant digits: the shortest round-trip digits of the value are these digits, so Display prints them
+        #  shifted by the exponent, padded with zeros)
+        if e >= 0 and len(digs) <= 15 and e <= 40:
+            return intern_decimal(ex, neg, digs + [48] * e, [])
+        if e < 0 and len(digs) <= 15 and -e <= 40:
+            k = len(digs) + e
+            if k > 0: return intern_decimal(ex, neg, digs[:k], digs[k:])
+            return intern_decimal(ex, neg, [48], [48] * (-k) + digs)
         if abs(e) <= 22:
             N = digits_value_bv(ip + fp); x = z3.fpSignedToFP(RNE, N, F64)
             p = z3.FPVal(float(10 ** abs(e)), F64)
